@@ -32,12 +32,17 @@ var errE2 = errors.New("user error two")
 type cfg struct {
 	mode   ekit.Mode
 	origin string   // add | accept | udp
-	causes []string // close close2 e1 e2 fin rst+write overflow rdeadline wdeadline stop
+	causes []string // close close2 e1 e2 fin data+fin rst+write overflow rdeadline wdeadline stop
 	p, d   int
+	async  string // "" (synchronous read) | go | default | inline: AsyncReadInPoller with that executor (edge-triggered only)
 }
 
 func (c cfg) name() string {
-	return fmt.Sprintf("%s origin=%s causes=%s", c.mode, c.origin, strings.Join(c.causes, "+"))
+	n := fmt.Sprintf("%s origin=%s causes=%s", c.mode, c.origin, strings.Join(c.causes, "+"))
+	if c.async != "" {
+		n += " read=async/" + c.async
+	}
+	return n
 }
 
 var lastCounters map[string]int
@@ -111,7 +116,7 @@ func errClass(err error) string {
 
 // which error classes may a cause report?
 var causeClasses = map[string][]string{
-	"close": {"nil"}, "close2": {"nil"}, "e1": {"E1"}, "e2": {"E2"}, "fin": {"EOF"},
+	"close": {"nil"}, "close2": {"nil"}, "e1": {"E1"}, "e2": {"E2"}, "fin": {"EOF"}, "data+fin": {"EOF"},
 	"rst+write": {"EOF", "ioerr"}, "backlog+rst": {"EOF", "ioerr"}, "rst+sendfile": {"EOF", "ioerr"}, "overflow": {"overflow"}, "rdeadline": {"rtimeout"}, "wdeadline": {"wtimeout"}, "stop": {"nil"},
 }
 
@@ -137,7 +142,21 @@ func body(c cfg) func() {
 			conf.Addrs = []string{"127.0.0.1:80"}
 			conf.Listen = func(network, addr string) (net.Listener, error) { return ln, nil }
 		}
+		if c.async != "" {
+			// asynchronous reading: the read task runs on an executor thread, so a peer shutdown can
+			// be reported to the poller while a task of the same connection is in flight
+			conf.AsyncReadInPoller = true
+			switch c.async {
+			case "go":
+				conf.IOExecute = func(f func(*[]byte)) {
+					vsched.GoNamed("iotask", func() { buf := make([]byte, 8); f(&buf) })
+				}
+			case "inline":
+				conf.IOExecute = func(f func(*[]byte)) { buf := make([]byte, 8); f(&buf) }
+			}
+		}
 		g := nbio.NewEngine(conf)
+		g.OnData(func(cc *nbio.Conn, data []byte) { vsched.Point() }) // a handler that takes a while
 		g.OnOpen(func(cc *nbio.Conn) { w.opens[cc] = append(w.opens[cc], w.tick()); vsched.Point() })
 		g.OnClose(func(cc *nbio.Conn, err error) {
 			w.closes[cc] = append(w.closes[cc], w.tick())
@@ -215,6 +234,12 @@ func body(c cfg) func() {
 					r.hasRet = true
 				case "fin":
 					if peer != nil {
+						peer.CloseWrite()
+					}
+				case "data+fin":
+					// input is being handled when the shutdown arrives
+					if peer != nil {
+						peer.Write([]byte{7})
 						peer.CloseWrite()
 					}
 				case "rst+write":
@@ -536,6 +561,25 @@ func build(tier string) []*vkit.Scenario {
 				}
 			}
 		}
+		if m == ekit.ET {
+			// asynchronous read: a peer shutdown that arrives with, or while, input is handled by a
+			// read task; alone and racing a local close
+			for _, ex := range []string{"go", "default", "inline"} {
+				if ex == "inline" && !thorough {
+					continue
+				}
+				for _, cs := range [][]string{{"fin"}, {"data+fin"}, {"data+fin", "close"}, {"data+fin", "e1"}, {"rst+write"}, {"data+fin", "stop"}} {
+					if len(cs) == 2 && ex == "default" && !thorough {
+						continue
+					}
+					c := cfg{mode: m, origin: "add", causes: cs, p: 2, async: ex}
+					if thorough {
+						c.p = 3
+					}
+					add(c.name(), body(c), c.p, 0)
+				}
+			}
+		}
 		for _, oc := range []string{"accept", "refuse", "never", "immediate"} {
 			for _, to := range []bool{false, true} {
 				thens := []string{"close"}
@@ -562,7 +606,7 @@ func main() {
 	defer ekit.CleanupFiles()
 	vkit.Main(&vkit.Spec{
 		Property: "C03", Level: "model_checking",
-		Rule: "one scenario = epoll mode x origin (AddConn, accepted, UDP session, async dial with outcome connected/refused/never/immediate and optional timeout) x 1-3 close causes raised concurrently (Close x2, CloseWithError x2, peer FIN, peer RST + write, overflow, read/write deadline on virtual time, Engine.Stop); every interleaving within the preemption bound; non-trivial = the connection was closed / the dial callback ran",
+		Rule: "one scenario = epoll mode x origin (AddConn, accepted, UDP session, async dial with outcome connected/refused/never/immediate and optional timeout) x 1-3 close causes raised concurrently (Close x2, CloseWithError x2, peer FIN, peer FIN behind input that is being handled, also with asynchronous reading on three executors, peer RST + write, overflow, read/write deadline on virtual time, Engine.Stop); every interleaving within the preemption bound; non-trivial = the connection was closed / the dial callback ran",
 		Assumptions: []string{
 			"'the reported error is the first cause' is required when a closing call returned before any other cause was raised; otherwise the error must be one of the raised causes",
 			"fatal I/O errors come from a peer reset (read: ECONNRESET, write: EPIPE); a reset seen through epoll is reported as EOF by nbio and accepted as such",
